@@ -17,7 +17,10 @@ class Meter(object):
     def _on_line(self, _code, _line):
         self.lines += 1
         if self.limit is not None and self.lines > self.limit:
+            # raised once now, and again only if the measured code swallows it and carries on: the lines of the
+            # handlers that unwind (measure()'s own included) must not trip it a second time
             self.exceeded = True
+            self.limit = self.lines + 50000
             raise WorkLimitExceeded()
 
     def _on_start(self, _code, _offset):
